@@ -25,6 +25,10 @@ def sh(cmd, **kw):
     return subprocess.run(cmd, capture_output=True, text=True, **kw)
 
 
+SEED = None
+WRITE = True
+
+
 def one(cid, tier, head):
     d = os.path.join(SEEDED, cid)
     meta = json.load(open(os.path.join(d, "meta.json")))
@@ -50,7 +54,8 @@ def one(cid, tier, head):
         final = {}
         for c in [prop] + ALSO.get(prop, []):
             r = sh([os.path.join(ROOT, "check"), c, "--tier", tier, "--no-evidence", "--jobs", "6"],
-                   env=dict(os.environ, CATII_SRC=os.path.join(wt, "src/catii")), timeout=7200)
+                   env=dict(os.environ, CATII_SRC=os.path.join(wt, "src/catii"), **({"VERIF_SEED": str(SEED)} if SEED is not None else {})),
+                   timeout=7200)
             keys = sorted({l.strip()[4:] for l in r.stdout.splitlines() if l.strip().startswith("key=")})
             final[c] = {"exit": r.returncode, "violation_keys": keys[:5]}
         return cid, {"demo_exit_with_patch": demo.returncode, "final": final, "verif_commit": head, "tier": tier}
@@ -67,6 +72,9 @@ def main(argv):
             jobs = int(argv[i + 1]); i += 2; continue
         if argv[i] == "--tier":
             tier = argv[i + 1]; i += 2; continue
+        if argv[i] == "--seed":
+            global SEED, WRITE
+            SEED = int(argv[i + 1]); WRITE = False; i += 2; continue
         ids.append(argv[i]); i += 1
     ids = ids or sorted(os.listdir(SEEDED))
     head = sh(["git", "-C", ROOT, "log", "-1", "--format=%h"]).stdout.strip()
@@ -80,7 +88,8 @@ def main(argv):
                 continue
             meta["final_run"] = res
             meta["caught_by"] = [c for c, v in res["final"].items() if v["exit"] == 1]
-            json.dump(meta, open(p, "w"), indent=1)
+            if WRITE:
+                json.dump(meta, open(p, "w"), indent=1)
             own = res["final"][meta["property"]]["exit"]
             print(cid, "own-check-exit=%s" % own, "caught_by=%s" % meta["caught_by"], "demo=%s" % res["demo_exit_with_patch"])
             if own != 1:
